@@ -23,7 +23,10 @@ assignments, and the truth table of the produced CNF equals the solution set of 
 (<= 14 variables); ValueError exactly when k > n or m > #compatible clauses (parities), the latter
 counted by brute force here.
 Suite "reseed": the real generator is called twice with the same seed= argument, the global
-generator being perturbed in between; the two formulas must be identical.
+generator being perturbed and the generator called with another seed in between; the two formulas must be
+identical.  Also under scripted generators (re-created per call, so a function of the seed): there the
+retry budget is exhausted and the DENSE fallback is what runs twice, with and without planted assignments.
+The runner's second pass (every case again, in reverse order) executes the generator again as well.
 """
 import itertools
 import random as _real_random
@@ -313,6 +316,13 @@ class Exec:
         return "sparse"
 
     def answer(self):
+        if self.done and not self.info.get("no_rerun"):
+            # asked again (the runner's second pass, in reverse order, after everything else has run): the
+            # generator is executed AGAIN on the same input and must give the first answer (the request line was
+            # made from the draws of the first execution, so a changed answer also disagrees with the model)
+            again = Exec(self.info)
+            again.info = dict(self.info, no_rerun=True)
+            return again.answer()
         self.run()
         if self.proxy.unknown:
             return "ERR UnmodelledRandomCall:" + ",".join(sorted(set(self.proxy.unknown)))
@@ -466,21 +476,37 @@ def check_shape(ex):
 
 
 def reseed_oracle(info):
+    """same arguments and same seed= twice in this process (other seed and other state in between).  With
+    info["script"] the modules under test draw from the scripted proxy, re-created for each call: its answers are a
+    function of the seed and of the call sequence alone, and they exhaust the retry budget, so that the dense
+    fallback is the branch that is called twice."""
     def oracle():
         gen, k, n, m = info["gen"], info["k"], info["n"], info["m"]
         f = RF.RandomKCNF if gen == "kcnf" else RX.RandomKXOR
         kw = {"seed": info["seed"]}
         if info.get("planted") is not None:
             kw["planted_assignments"] = [list(a) for a in info["planted"]]
+
+        def once(kw_):
+            if info.get("script"):
+                proxy = RecordingRandom({"p": info["script"]["p"], "rng": sub_rng(info["script"]["sseed"], "script")})
+                with Patched(proxy):
+                    return fmt_formula(f(k, n, m, **kw_))
+            return fmt_formula(f(k, n, m, **kw_))
         outs = []
         for rnd in range(2):
             _real_random.seed(info.get("gseed", 0) + 7919 * rnd)
             for _ in range(info.get("perturb", 0) + 3 * rnd):
                 _real_random.random()
             try:
-                outs.append(fmt_formula(f(k, n, m, **kw)))
+                outs.append(once(kw))
             except Exception as e:  # noqa
                 outs.append(common.exc_name(e))
+            if rnd == 0 and info.get("between", True):
+                try:
+                    once(dict(kw, seed=info["seed"] + 1 if isinstance(info["seed"], int) else 1))
+                except Exception:  # noqa
+                    pass
         if outs[0] != outs[1]:
             return {"same_seed_different_formula": info["seed"], "first": outs[0][:300], "second": outs[1][:300],
                     "k": k, "n": n, "m": m}
@@ -672,6 +698,23 @@ def cases(ctx):
                     "seed": rng.choice([0, 1, -5, 2 ** 31, rng.randint(0, 2 ** 40)]),
                     "gseed": rng.randint(0, 2 ** 31), "perturb": rng.randint(0, 5)}
             out.append(build("reseed", info))
+        # the same under scripted generators: every branch of the sampler (retry budget exhausted, dense fallback
+        # taken, with and without planted assignments) is the one that runs twice
+        for _ in range(60 if thorough else 25):
+            n = rng.randint(1, 7)
+            k = rng.randint(1, min(n, 3))
+            planted = rng.choice(planted_sets(rng, n)[:3] + [[], None])
+            counter = compatible_clauses if gen == "kcnf" else compatible_parities
+            mx = counter(k, n, planted or [])
+            m = rng.choice([mx, mx, max(mx - 1, 0), mx // 2, mx + 1])
+            if m > 300:
+                m = 300
+            info = {"gen": gen, "k": k, "n": n, "m": m, "planted": planted,
+                    "seed": rng.choice([0, 1, -5, rng.randint(0, 2 ** 40)]),
+                    "gseed": rng.randint(0, 2 ** 31), "perturb": rng.randint(0, 5)}
+            if m > 0:
+                info["script"] = {"p": rng.choice([0.9, 0.97, 1.0]), "sseed": rng.randint(0, 2 ** 31)}
+            out.append(build("reseed", info))
     return out
 
 
@@ -725,6 +768,8 @@ def search(ctx, case):
     rng = sub_rng(ctx["seed"], "C13", "search")
     suite = case.suite
     for cand in neighbourhood(case.info, rng, 3000 if ctx["tier"] == "thorough" else 800):
+        if suite == "reseed" and cand.get("via") is None:
+            cand.setdefault("seed", rng.randint(0, 2 ** 31))     # scripted candidates too: called twice with one seed
         c = build(suite if suite == "reseed" and cand.get("seed") is not None else "shape", cand)
         r = common.run_oracle(c)
         if r is not None:
